@@ -1,1 +1,3 @@
 pub mod c04;
+pub mod c16;
+pub mod c18;
